@@ -1,5 +1,7 @@
 package event
 
+import "sync"
+
 type EventFn[T any] func(data T)
 
 type Unsubscribe func()
@@ -10,6 +12,7 @@ type subscription[T any] struct {
 }
 
 type Event[T any] struct {
+	mu          sync.Mutex // protects subscribers and nextID
 	subscribers []subscription[T]
 	nextID      uint64
 }
@@ -22,10 +25,14 @@ func New[T any]() *Event[T] {
 func (e *Event[T]) Subscribe(fn EventFn[T]) Unsubscribe {
 	// Subscriptions are identified by a unique id rather than by their index,
 	// since the index changes when an earlier subscriber is removed.
+	e.mu.Lock()
+	defer e.mu.Unlock()
 	id := e.nextID
 	e.nextID++
 	e.subscribers = append(e.subscribers, subscription[T]{id: id, fn: fn})
 	return func() {
+		e.mu.Lock()
+		defer e.mu.Unlock()
 		for i, sub := range e.subscribers {
 			if sub.id == id {
 				e.subscribers = append(e.subscribers[:i:i], e.subscribers[i+1:]...)
@@ -39,7 +46,11 @@ func (e *Event[T]) Subscribe(fn EventFn[T]) Unsubscribe {
 // NOTE: The subscribers are notified in separate goroutines,
 // so be aware of potential race conditions.
 func (e *Event[T]) Fire(data T) {
-	for _, subscriber := range e.subscribers {
+	e.mu.Lock()
+	subscribers := append([]subscription[T](nil), e.subscribers...)
+	e.mu.Unlock()
+
+	for _, subscriber := range subscribers {
 		go subscriber.fn(data)
 	}
 }
